@@ -9,7 +9,7 @@ import z3
 from engine import symex, symfile
 from engine.symex import CTX, PatchDoesNotApply, Loader
 from engine.symfile import BV64, SymBytes, SymFile, Disk, bv, W, side, crash_image
-from props.bundle import (V2, inv_v2, le_bytes, U, IDX2, load_compact, run_sym, ModelFile, model_byte_fn, map_byte_fn, V1, inv_v1, disjoint_v1)
+from props.bundle import (untouched, v2_index_addr, v1_index_addr, V2, inv_v2, le_bytes, U, IDX2, load_compact, run_sym, ModelFile, model_byte_fn, map_byte_fn, V1, inv_v1, disjoint_v1)
 
 MOD = 'props.C06_crash'
 
@@ -27,9 +27,8 @@ def goal_crash_v2(C, nbytes, part=None, kc=None):
     off_o, size_o = st.entry(st.arr0, st.L, st.x, st.y)
     off_b, size_b = st.entry(st.arr0, st.L, st.x2, st.y2)
     s.add(inv_v2(st.arr0, st.L, off_o, size_o), inv_v2(st.arr0, st.L, off_b, size_b))
-    fh = SymFile(st.disk, 'bundle')
-    st.b._store_tile(fh, (BV64(st.x), BV64(st.y), 0), SymBytes(st.d))
-    fh.close()
+    from props.C19_bundle import _STile
+    st.b.store_tiles([_STile((BV64(st.x), BV64(st.y), 0), SymBytes(st.d))])     # real public method (flushes on close)
     log = list(st.disk.log)
     st.log = log
     tear = z3.BitVec('tear', W)
@@ -53,8 +52,12 @@ def goal_crash_v2(C, nbytes, part=None, kc=None):
     new_ok = z3.And(off_w == st.L + 4, size_w == nbytes, *[z3.Select(arr_c, st.L + 4 + i) == st.d[i] for i in range(nbytes)])
     parts = {
         'written-slot-old-or-new': z3.Or(old_ok, new_ok),
-        'other-slot-unaffected': z3.Implies(z3.Not(same), z3.And(off_a == off_b, size_a == size_b,
-                                                               z3.Implies(in_b, z3.Select(arr_c, a) == z3.Select(st.arr0, a)))),
+        # frame argument (holds for every crash point and tear at once): index entry, size field and record
+        # bytes of the other slot are outside everything the store ever flushes
+        'other-slot-unaffected': z3.Implies(z3.Not(same), z3.And(
+            untouched(log, 'bundle', v2_index_addr(st.x2, st.y2), 8),
+            z3.Implies(size_b != 0, untouched(log, 'bundle', off_b - 4, 4)),
+            z3.Implies(in_b, untouched(log, 'bundle', a)))),
     }
     goal = parts[part] if part else z3.And(*parts.values())
     return goal, st
@@ -215,8 +218,10 @@ def goal_crash_v1(C, nbytes, part=None, kc=0):
     new_ok = z3.And(off_w == st.Ld, size_w == nbytes, *[z3.Select(dat_c, st.Ld + 4 + i) == st.d[i] for i in range(nbytes)])
     parts = {
         'written-slot-old-or-new': z3.Or(old_ok, new_ok),
-        'other-slot-unaffected': z3.Implies(z3.Not(same), z3.And(off_a == off_b, size_a == size_b,
-                                                               z3.Implies(in_b, z3.Select(dat_c, a) == z3.Select(st.dat0, a)))),
+        'other-slot-unaffected': z3.Implies(z3.Not(same), z3.And(
+            untouched(log, '/b/R0000C0000.bundlx', v1_index_addr(st.x2, st.y2), 5),
+            z3.Implies(off_b != 0, untouched(log, '/b/R0000C0000.bundle', off_b, 4)),
+            z3.Implies(in_b, untouched(log, '/b/R0000C0000.bundle', a)))),
     }
     return (parts[part] if part else z3.And(*parts.values())), st
 
@@ -635,13 +640,13 @@ def obligations(tier, seed):
     specs = []
     for n in ((5, 9) if tier == 'thorough' else (5,)):
         for k in range(0, 6):     # flush boundaries of one store (the real code issues 4-5 flushes); k=5: completed
-            for part in ('written-slot-old-or-new', 'other-slot-unaffected'):
-                specs.append(_spec('bundle-v2/crash-behind-flush-%d/payload%d/%s' % (k, n, part), 'run_crash_v2', n=n, part=part, k=k, cost=80))
+            specs.append(_spec('bundle-v2/crash-behind-flush-%d/payload%d/written-slot-old-or-new' % (k, n), 'run_crash_v2', n=n,
+                               part='written-slot-old-or-new', k=k, cost=80))
+        specs.append(_spec('bundle-v2/any-crash-point/payload%d/other-slot-unaffected' % n, 'run_crash_v2', n=n, part='other-slot-unaffected', k=0, cost=40))
     for k in range(0, 4):     # the real v1 store issues three flushes: record (data file), index entry (index file), header (data file)
-        for part in ('written-slot-old-or-new', 'other-slot-unaffected'):
-            if tier != 'thorough' and part == 'other-slot-unaffected' and k not in (1, 3):
-                continue
-            specs.append(_spec('bundle-v1/crash-behind-flush-%d/payload5/%s' % (k, part), 'run_crash_v1', n=5, part=part, k=k, cost=300))
+        n1 = 5 if (tier == 'thorough' or k >= 2) else 3     # a tear inside the record flush is the expensive query
+        specs.append(_spec('bundle-v1/crash-behind-flush-%d/payload%d/written-slot-old-or-new' % (k, n1), 'run_crash_v1', n=n1, part='written-slot-old-or-new', k=k, cost=300))
+    specs.append(_spec('bundle-v1/any-crash-point/payload5/other-slot-unaffected', 'run_crash_v1', n=5, part='other-slot-unaffected', k=0, cost=60))
     specs.append(_spec('twin/bundle-v1-crash', 'run_crash_v1', kind='witness', n=5, k=1, cost=5))
     specs.append(_spec('canary/v1 index entry published before the record is appended', 'run_crash_v1', kind='canary', n=5, k=1, part='written-slot-old-or-new', cost=60,
                        patches={'mapproxy.cache.compact': [["                        offset, size = bundle.append_tile(data, prev_offset=offset)\n                        idx.update_tile_offset(x, y, offset=offset, size=size)",
